@@ -4,7 +4,7 @@
 From Coq Require Import Ascii String List Bool Arith ZArith NArith Lia.
 From PTBase Require Import Exn PyStr PyNum PyVal Fmt FixedFormat.
 From Gen Require Import GenTables GenSections.
-From P Require Import Comb Obj Fields Idem Sections SectionsB Rec Prog SecRocks SecMesh SecGener SecMisc SecParam SecHist SecSel SecShort SecMeshm T2DataIO Whole IdemSec.
+From P Require Import Comb Obj Fields Idem Sections SectionsB Rec Prog SecRocks SecMesh SecGener SecMisc SecParam SecHist SecSel SecShort SecMeshm T2DataIO Whole IdemSec IdemSecB.
 Import ListNotations.
 Open Scope string_scope.
 
@@ -67,16 +67,37 @@ Definition prog_sec (d : t2d) (k : string) : list item :=
   else if k =? "ELEME" then list_prog "ELEME" prog_block (blocks d)
   else if k =? "CONNE" then list_prog "CONNE" prog_conn (conns d)
   else if k =? "PARAM" then prog_param T0 d
+  else if k =? "RPCAP" then prog_rpcap d
+  else if k =? "LINEQ" then prog_dictsec T0 "LINEQ" "lineq" (lineq d)
+  else if k =? "SOLVR" then prog_dictsec T0 "SOLVR" "solver" (solver d)
+  else if k =? "MULTI" then prog_multi T0 d
+  else if k =? "TIMES" then prog_times T0 d
+  else if k =? "GENER" then prog_gener d
+  else if k =? "INCON" then prog_incon d
+  else if k =? "INDOM" then prog_indom d
+  else if k =? "SELEC" then prog_selec d
+  else if k =? "DIFFU" then prog_diffu d
   else lits (wsec d k).
 Definition wfw_sec (d : t2d) (k : string) : bool :=
   if k =? "ROCKS" then forallb wfw_rock (rocks d)
   else if k =? "ELEME" then true
   else if k =? "CONNE" then true
   else if k =? "PARAM" then wfw_param d
+  else if k =? "RPCAP" then wfw_rpcap d
+  else if k =? "LINEQ" then true
+  else if k =? "SOLVR" then true
+  else if k =? "MULTI" then true
+  else if k =? "TIMES" then wfw_times d
+  else if k =? "GENER" then forallb wfw_gen (gens d)
+  else if k =? "INCON" then true
+  else if k =? "INDOM" then true
+  else if k =? "SELEC" then wfw_selec d
+  else if k =? "DIFFU" then true
   else existsb (String.eqb k) ident_kinds && is_ok (wsec d k).
 (** sections for which the second file is a theorem *)
 Definition rec_kinds : list string := ["ROCKS"; "ELEME"; "CONNE"; "PARAM"].
-Definition idem_covered : list string := rec_kinds +++ ident_kinds.
+Definition rec_kinds2 : list string := ["RPCAP"; "LINEQ"; "SOLVR"; "MULTI"; "TIMES"; "GENER"; "INCON"; "INDOM"; "SELEC"; "DIFFU"].
+Definition idem_covered : list string := rec_kinds +++ rec_kinds2 +++ ident_kinds.
 
 Lemma flat_map_ext_in {A B} (f g : A -> list B) l : (forall x, In x l -> f x = g x) -> flat_map f l = flat_map g l.
 Proof. intro H. induction l as [|a l IH]; [reflexivity|]. cbn. rewrite H by (left; reflexivity). rewrite IH; [reflexivity|]. intros. apply H. right. assumption. Qed.
@@ -102,17 +123,30 @@ Qed.
 Theorem wsec_prog d k : In k idem_covered -> wfw_sec d k = true -> wsec d k = render0 (prog_sec d k).
 Proof.
   pose proof tables_ok_true as TK. unfold tables_ok in TK. repeat (apply andb_prop in TK as [TK ?]).
-  intros IN WF. unfold idem_covered in IN. apply in_app_or in IN as [IN|IN].
+  intros IN WF. unfold idem_covered in IN. apply in_app_or in IN as [IN|IN]; [|apply in_app_or in IN as [IN|IN]].
   - unfold rec_kinds in IN. cbn [In] in IN.
     repeat (destruct IN as [IN|IN]; [subst k|]); [..|contradiction]; unfold wfw_sec, prog_sec in *; cbn [String.eqb Ascii.eqb Bool.eqb] in *.
     + rewrite wsec_ROCKS. unfold write_rocks. apply list_writer_prog. intros r I. rewrite forallb_forall in WF. apply write_rock_prog. apply WF. exact I.
     + rewrite wsec_ELEME. unfold write_blocks. apply list_writer_prog. intros b I. apply write_block_prog. assumption.
     + rewrite wsec_CONNE. unfold write_conns. apply list_writer_prog. intros c I. apply write_conn_prog.
     + rewrite wsec_PARAM. apply write_param_prog. exact WF.
-  - assert (NR : (k =? "ROCKS") = false /\ (k =? "ELEME") = false /\ (k =? "CONNE") = false /\ (k =? "PARAM") = false).
-    { unfold ident_kinds in IN. cbn [In] in IN. repeat (destruct IN as [IN|IN]; [subst k; repeat split; reflexivity|]). contradiction. }
-    destruct NR as [N1 [N2 [N3 N4]]]. unfold wfw_sec, prog_sec in *. rewrite N1, N2, N3, N4 in *. apply andb_prop in WF as [_ OK]. unfold lits.
-    destruct (wsec d k) as [ls|]; [|discriminate]. symmetry. apply render_lits.
+  - unfold rec_kinds2 in IN. cbn [In] in IN.
+    repeat (destruct IN as [IN|IN]; [subst k|]); [..|contradiction]; unfold wfw_sec, prog_sec in *; cbn [String.eqb Ascii.eqb Bool.eqb] in *.
+    + rewrite wsec_RPCAP. apply write_rpcap_prog. exact WF.
+    + rewrite wsec_LINEQ. apply write_dictsec_prog.
+    + rewrite wsec_SOLVR. apply write_dictsec_prog.
+    + rewrite wsec_MULTI. apply write_multi_prog.
+    + rewrite wsec_TIMES. apply write_times_prog. exact WF.
+    + rewrite wsec_GENER. unfold write_gens, prog_gener. destruct (gens d) as [|g0 gs] eqn:EG; [reflexivity|]. rewrite <- EG in *.
+      apply (list_writer_prog (write_gen T0) prog_gen "GENER"). intros g I. rewrite forallb_forall in WF. apply write_gen_prog; [assumption|apply WF; exact I].
+    + rewrite wsec_INCON. apply write_incons_prog.
+    + rewrite wsec_INDOM. apply write_indom_prog.
+    + rewrite wsec_SELEC. apply write_selec_prog. exact WF.
+    + rewrite wsec_DIFFU. apply write_diffu_prog.
+  - unfold ident_kinds in IN. cbn [In] in IN.
+    repeat (destruct IN as [IN|IN]; [subst k|]); [..|contradiction]; unfold wfw_sec, prog_sec in *; cbn [String.eqb Ascii.eqb Bool.eqb] in *;
+      apply andb_prop in WF as [_ OK]; unfold lits;
+      match goal with |- ?W = _ => destruct W as [ls|]; [|discriminate] end; symmetry; apply render_lits.
 Qed.
 
 (** P2: the program of the section as the reader left it *)
@@ -121,6 +155,16 @@ Definition same_for (k : string) (X Y : t2d) : Prop :=
   else if k =? "ELEME" then blocks X = blocks Y
   else if k =? "CONNE" then conns X = conns Y
   else if k =? "PARAM" then param X = param Y
+  else if k =? "RPCAP" then (relperm X, capil X) = (relperm Y, capil Y)
+  else if k =? "LINEQ" then lineq X = lineq Y
+  else if k =? "SOLVR" then solver X = solver Y
+  else if k =? "MULTI" then multi X = multi Y
+  else if k =? "TIMES" then otimes X = otimes Y
+  else if k =? "GENER" then gens X = gens Y
+  else if k =? "INCON" then incon X = incon Y
+  else if k =? "INDOM" then indom X = indom Y
+  else if k =? "SELEC" then selection X = selection Y
+  else if k =? "DIFFU" then diffusion X = diffusion Y
   else if k =? "SIMUL" then simulator X = simulator Y
   else if k =? "MOMOP" then momop X = momop Y
   else if k =? "START" then start X = start Y
@@ -138,6 +182,18 @@ Definition idem_sec (d dk : t2d) (k : string) : bool :=
   else if k =? "ELEME" then forallb (idem_block T0) (blocks d) && all_distinct same_block (map (canon_block T0) (blocks d))
   else if k =? "CONNE" then forallb (idem_conn T0) (conns d) && all_distinct same_conn (map (canon_conn T0) (conns d))
   else if k =? "PARAM" then idem_param T0 dk d
+  else if k =? "RPCAP" then tp_ok T0 "relative_permeability" && tp_ok T0 "capillarity"
+  else if k =? "LINEQ" then idem_dict T0 "lineq" (lineq dk) (lineq d)
+  else if k =? "SOLVR" then idem_dict T0 "solver" (solver dk) (solver d)
+  else if k =? "MULTI" then idem_multi T0 dk d
+  else if k =? "TIMES" then
+    match otimes d with Some x => idem_times T0 (match otimes dk with Some (y, _) => y | None => [] end) x | None => false end
+  else if k =? "GENER" then forallb (idem_gen T0) (gens d)
+  else if k =? "INCON" then idem_incon T0 d
+  else if k =? "INDOM" then idem_indom T0 (indom d)
+  else if k =? "SELEC" then (length (Sections.sp T0 "selec2") =? chunk_of "write_selection")%nat
+  else if k =? "DIFFU" then
+    match dget (multi dk) "num_phases" with Some (XInt np) => idem_diffu T0 np (diffusion d) | _ => false end
   else if k =? "SIMUL" then str_eqb (strip (simulator d)) (simulator d)
   else true.
 Lemma short_freq_same s : wf_freq s = true ->
@@ -149,10 +205,11 @@ Proof.
 Qed.
 Theorem prog_sec_canon d k dk X : In k idem_covered -> secwf k d dk = true -> idem_sec d dk k = true -> wfw_sec d k = true ->
   same_for k X (push k (supd k d dk)) -> autough2 X = autough2 d ->
+  (k = "INCON" -> map b_name (blocks X) = map b_name (blocks d)) ->
   prog_sec X k = map citem0 (prog_sec d k) /\ wfw_sec X k = true.
 Proof.
   pose proof tables_ok_true as TK. unfold tables_ok in TK. repeat (apply andb_prop in TK as [TK ?]).
-  intros IN WF ID WW SF AX. unfold idem_covered, rec_kinds, ident_kinds in IN. cbn [In app] in IN.
+  intros IN WF ID WW SF AX BN. unfold idem_covered, rec_kinds, rec_kinds2, ident_kinds in IN. cbn [In app] in IN.
   repeat (destruct IN as [IN|IN]; [subst k|]); [..|contradiction];
     unfold same_for, push, supd in SF; cbn [String.eqb Ascii.eqb Bool.eqb] in SF;
     unfold idem_sec in ID; cbn [String.eqb Ascii.eqb Bool.eqb] in ID;
@@ -180,6 +237,44 @@ Proof.
     rewrite forallb_forall in ID1, WF. rewrite (conn_vals_canon T0 (blocks dk) c); auto.
   - (* PARAM *)
     apply (prog_param_canon T0 dk d X); auto; try (rewrite SF; destruct dk; reflexivity).
+  - (* RPCAP *)
+    apply andb_prop in ID as [K1 K2]. injection SF as S1 S2.
+    apply prog_rpcap_canon; [exact K1|exact K2|exact WW|rewrite S1; destruct dk; reflexivity|rewrite S2; destruct dk; reflexivity].
+  - (* LINEQ *)
+    assert (E : lineq X = canon_dict T0 "lineq" (lineq dk) (lineq d)) by (rewrite SF; destruct dk; reflexivity).
+    split; [rewrite E; apply prog_dictsec_canon; exact ID|reflexivity].
+  - (* SOLVR *)
+    assert (E : solver X = canon_dict T0 "solver" (solver dk) (solver d)) by (rewrite SF; destruct dk; reflexivity).
+    split; [rewrite E; apply prog_dictsec_canon; exact ID|reflexivity].
+  - (* MULTI *)
+    apply andb_prop in WF as [_ OKS]. destruct (strip_eos (canon_dict T0 (multi_spec d) (multi dk) (multi d))) as [m|] eqn:SE; [|discriminate].
+    split; [|reflexivity]. apply (prog_multi_canon T0 dk d X m ID SE); [rewrite SF; destruct dk; reflexivity|exact AX].
+  - (* TIMES *)
+    destruct (otimes d) as [x|] eqn:OD; [|discriminate].
+    apply (prog_times_canon T0 d X (match otimes dk with Some (y, _) => y | None => [] end) x); auto; try (rewrite SF; destruct dk; reflexivity).
+  - (* GENER *)
+    apply andb_prop in WF as [NE WG].
+    assert (E : gens X = map (canon_gen T0) (gens d)) by (rewrite SF; destruct dk; reflexivity).
+    assert (P : forall g, In g (gens d) -> prog_gen (canon_gen T0 g) = map citem0 (prog_gen g) /\ wfw_gen (canon_gen T0 g) = wfw_gen g).
+    { intros g I. rewrite forallb_forall in ID. apply prog_gen_canon; [assumption|apply ID; exact I]. }
+    split.
+    + unfold prog_gener. rewrite E.
+      assert (NM : nonempty (map (canon_gen T0) (gens d)) = true) by (destruct (gens d); [discriminate NE|reflexivity]).
+      destruct (map (canon_gen T0) (gens d)) as [|m ms] eqn:EM; [discriminate|]. cbv iota. rewrite <- EM. clear EM NM.
+      destruct (gens d) as [|g0 gs] eqn:EG; [discriminate|]. cbv iota. rewrite <- EG in *. clear EG.
+      apply (list_prog_canon "GENER" prog_gen (canon_gen T0)). intros g I. apply P. exact I.
+    + rewrite E. rewrite forallb_forall in *. intros g' I. apply in_map_iff in I as [g [EG I]]. subst g'. rewrite (proj2 (P g I)). apply WW. exact I.
+  - (* INCON *)
+    apply andb_prop in WF as [WF _]. apply andb_prop in WF as [NE _]. split; [|reflexivity].
+    apply (prog_incon_canon T0 d X); auto; try (rewrite SF; destruct dk; reflexivity).
+  - (* INDOM *)
+    split; [|reflexivity]. apply (prog_indom_canon T0 d X ID). rewrite SF. destruct dk; reflexivity.
+  - (* SELEC *)
+    destruct (selection d) as [x|] eqn:SD; [|discriminate].
+    apply (prog_selec_canon T0 d X x); auto; try (rewrite SF; destruct dk; reflexivity).
+  - (* DIFFU *)
+    destruct (dget (multi dk) "num_phases") as [[|np| |]|] eqn:NP; try discriminate. split; [|reflexivity].
+    apply (prog_diffu_canon T0 d X np ID). rewrite SF. destruct dk; reflexivity.
   - (* SIMUL *)
     apply str_eqb_eq in ID. rewrite !wsec_SIMUL in *. unfold write_simulator in *.
     assert (E : simulator X = simulator d) by (rewrite SF; destruct dk; cbn; exact ID). rewrite E.
@@ -282,6 +377,16 @@ Lemma frame_rocks : frame rocks "ROCKS". Proof. frame_tac. Qed.
 Lemma frame_blocks : frame blocks "ELEME". Proof. frame_tac. Qed.
 Lemma frame_conns : frame conns "CONNE". Proof. frame_tac. Qed.
 Lemma frame_param : frame param "PARAM". Proof. frame_tac. Qed.
+Lemma frame_rpcap : frame (fun t => (relperm t, capil t)) "RPCAP". Proof. frame_tac. Qed.
+Lemma frame_lineq : frame lineq "LINEQ". Proof. frame_tac. Qed.
+Lemma frame_solver : frame solver "SOLVR". Proof. frame_tac. Qed.
+Lemma frame_multi : frame multi "MULTI". Proof. frame_tac. Qed.
+Lemma frame_otimes : frame otimes "TIMES". Proof. frame_tac. Qed.
+Lemma frame_gens : frame gens "GENER". Proof. frame_tac. Qed.
+Lemma frame_incon : frame incon "INCON". Proof. frame_tac. Qed.
+Lemma frame_indom : frame indom "INDOM". Proof. frame_tac. Qed.
+Lemma frame_selection : frame selection "SELEC". Proof. frame_tac. Qed.
+Lemma frame_diffusion : frame diffusion "DIFFU". Proof. frame_tac. Qed.
 Lemma frame_simulator : frame simulator "SIMUL". Proof. frame_tac. Qed.
 Lemma frame_momop : frame momop "MOMOP". Proof. frame_tac. Qed.
 Lemma frame_start : frame start "START". Proof. frame_tac. Qed.
@@ -296,12 +401,22 @@ Ltac sf_case pi fr ks d d0 ND IK :=
 Lemma same_for_final k : In k idem_covered -> forall ks d d0 e, NoDup ks -> In k ks ->
   exists pre post, ks = (pre ++ k :: post)%list /\ same_for k (set_end_keyword (final d ks d0) e) (push k (supd k d (final d pre d0))).
 Proof.
-  intros IN ks d d0 e ND IK. unfold idem_covered, rec_kinds, ident_kinds in IN. cbn [In app] in IN.
+  intros IN ks d d0 e ND IK. unfold idem_covered, rec_kinds, rec_kinds2, ident_kinds in IN. cbn [In app] in IN.
   repeat (destruct IN as [IN|IN]; [subst k|]); [..|contradiction]; unfold same_for; cbn [String.eqb Ascii.eqb Bool.eqb].
   - sf_case rocks frame_rocks ks d d0 ND IK.
   - sf_case blocks frame_blocks ks d d0 ND IK.
   - sf_case conns frame_conns ks d d0 ND IK.
   - sf_case param frame_param ks d d0 ND IK.
+  - sf_case (fun t => (relperm t, capil t)) frame_rpcap ks d d0 ND IK.
+  - sf_case lineq frame_lineq ks d d0 ND IK.
+  - sf_case solver frame_solver ks d d0 ND IK.
+  - sf_case multi frame_multi ks d d0 ND IK.
+  - sf_case otimes frame_otimes ks d d0 ND IK.
+  - sf_case gens frame_gens ks d d0 ND IK.
+  - sf_case incon frame_incon ks d d0 ND IK.
+  - sf_case indom frame_indom ks d d0 ND IK.
+  - sf_case selection frame_selection ks d d0 ND IK.
+  - sf_case diffusion frame_diffusion ks d d0 ND IK.
   - sf_case simulator frame_simulator ks d d0 ND IK.
   - sf_case momop frame_momop ks d d0 ND IK.
   - sf_case start frame_start ks d d0 ND IK.
@@ -315,8 +430,16 @@ Qed.
 (** the object the reader builds from the file of [d] *)
 Definition reread (d : t2d) (ks : list string) : t2d := set_end_keyword (final d ks (start_state d)) (end_keyword d).
 (** the decidable conditions of the second file *)
+Fixpoint strs_eqb (a b : list str) : bool :=
+  match a, b with [], [] => true | x :: a', y :: b' => str_eqb x y && strs_eqb a' b' | _, _ => false end.
+Lemma strs_eqb_eq a : forall b, strs_eqb a b = true -> a = b.
+Proof.
+  induction a as [|x a IH]; intros [|y b] H; try discriminate; [reflexivity|]. cbn in H. apply andb_prop in H as [H1 H2].
+  apply str_eqb_eq in H1. subst. f_equal. apply IH. exact H2.
+Qed.
 Definition idem_ok (d : t2d) (ks : list string) : bool :=
-  idem_chain d ks (start_state d) && all_distinct String.eqb ks && Bool.eqb (autough2 (reread d ks)) (autough2 d).
+  idem_chain d ks (start_state d) && all_distinct String.eqb ks && Bool.eqb (autough2 (reread d ks)) (autough2 d) &&
+  strs_eqb (map b_name (blocks (reread d ks))) (map b_name (blocks d)).
 Lemma all_distinct_nodup ks : all_distinct String.eqb ks = true -> NoDup ks.
 Proof.
   induction ks as [|k ks IH]; intro D; [constructor|]. cbn [all_distinct] in D. apply andb_prop in D as [D1 D2]. apply negb_true_iff in D1.
@@ -332,8 +455,8 @@ Qed.
 Theorem prog_file_canon d ks : chain_ok d ks (start_state d) = true -> idem_ok d ks = true ->
   prog_file (reread d ks) ks = map citem0 (prog_file d ks) /\ forallb (wfw_sec (reread d ks)) ks = true.
 Proof.
-  intros CH ID. unfold idem_ok in ID. apply andb_prop in ID as [ID AX]. apply andb_prop in ID as [ID ND]. apply all_distinct_nodup in ND.
-  apply Bool.eqb_prop in AX.
+  intros CH ID. unfold idem_ok in ID. apply andb_prop in ID as [ID BN]. apply andb_prop in ID as [ID AX]. apply andb_prop in ID as [ID ND]. apply all_distinct_nodup in ND.
+  apply Bool.eqb_prop in AX. apply strs_eqb_eq in BN.
   assert (P : forall k, In k ks -> prog_sec (reread d ks) k = map citem0 (prog_sec d k) /\ wfw_sec (reread d ks) k = true).
   { intros k IK. destruct (in_split k ks IK) as [pre0 [post0 E0]].
     assert (IC := ID). rewrite E0 in IC. apply idem_chain_split in IC as [IX _].
@@ -371,7 +494,7 @@ Theorem write_idem d ks ls :
   exists ls', write_lines (reread d ks) = Ok ls' /\ Forall2 lpad ls ls' /\ render0 (map citem0 (prog_file d ks)) = Ok ls'.
 Proof.
   intros W US SK XP CH ID USD ST.
-  assert (IC : idem_chain d ks (start_state d) = true) by (unfold idem_ok in ID; apply andb_prop in ID as [ID _]; apply andb_prop in ID as [ID _]; exact ID).
+  assert (IC : idem_chain d ks (start_state d) = true) by (unfold idem_ok in ID; do 3 (apply andb_prop in ID as [ID _]); exact ID).
   destruct (idem_chain_all d ks _ IC) as [COV WFW].
   rewrite (write_lines_prog d ks US XP SK COV WFW) in W.
   destruct (render_rewrite T0 _ _ W ST) as [ls' [R' F]].
@@ -396,12 +519,12 @@ Proof.
   destruct (reread_facts d ks) as [XD [SD ED]]. fold D in XD, SD, ED.
   exists ls'. split; [exact WD|]. split; [exact F|]. split.
   - unfold reread. apply (read_write_main D ks ls' WD USD SD XD); [rewrite ED; exact EK|exact TI|exact CHD].
-  - assert (IC : idem_chain D ks (start_state D) = true) by (unfold idem_ok in IDD; apply andb_prop in IDD as [IDD _]; apply andb_prop in IDD as [IDD _]; exact IDD).
+  - assert (IC : idem_chain D ks (start_state D) = true) by (unfold idem_ok in IDD; do 3 (apply andb_prop in IDD as [IDD _]); exact IDD).
     destruct (idem_chain_all D ks _ IC) as [COV _].
     destruct (prog_file_canon D ks CHD IDD) as [PC2 WD2]. destruct (prog_file_canon d ks CH ID) as [PC1 _]. fold D in PC1.
     destruct (reread_facts D ks) as [XD2 [SD2 _]].
     rewrite (write_lines_prog (reread D ks) ks USD2 XD2 SD2 COV WD2), PC2, PC1.
-    assert (IC1 : idem_chain d ks (start_state d) = true) by (unfold idem_ok in ID; apply andb_prop in ID as [ID' _]; apply andb_prop in ID' as [ID' _]; exact ID').
+    assert (IC1 : idem_chain d ks (start_state d) = true) by (unfold idem_ok in ID; do 3 (apply andb_prop in ID as [ID _]); exact ID).
     destruct (idem_chain_all d ks _ IC1) as [COV1 WFW1].
     rewrite (write_lines_prog d ks US XP SK COV1 WFW1) in W.
     rewrite (render_fixpoint T0 _ _ W ST). exact R'.
